@@ -22,26 +22,30 @@ SPECS["C01"] = {
         {"name": "charset", "pkg": "charset", "harnesses": ["HC01Charset"], "quick_args": fix(maxlen=3), "thorough_args": fix(maxlen=4),
          "quick_shards": 8, "thorough_shards": 16},
         {"name": "sequence", "pkg": "mimetype", "harnesses": ["HC05Seq"], "quick_args": fix(maxlen=2), "thorough_args": fix(maxlen=3), "quick_shards": 32, "thorough_shards": 64},
+        {"name": "data", "pkg": "mimetype", "harnesses": ["HC01Data"], "args": ["-max-instr", "30000000"], "quick_args": fix(dataTier=0), "thorough_args": fix(dataTier=1), "quick_shards": 48, "thorough_shards": 64},
     ],
-    "must_reach": ["assert:second-detection-ok", "end"],
+    "must_reach": ["assert:data-reader-agrees-with-bytes", "assert:e2e-no-binary-byte-implies-classified", "assert:second-detection-ok", "end"],
     "bounds": {"quick": {"non_looping_detectors": "header lengths 0..64 and all lengths within 4 bytes of every length guard up to 4196, all byte values, all uint32 limits",
-                         "looping_detectors": "every header length 0..6 (text family, matroska)", "charset": "length <= 3"},
-               "thorough": {"non_looping_detectors": "every header length 0..4300", "looping_detectors": "every header length 0..8", "charset": "length <= 4"}},
+                         "looping_detectors": "every header length 0..6 (text family, matroska)", "charset": "length <= 3",
+                         "data": "Detect + DetectReader on the first <= 96 bytes of every input of the repository's test table and testdata (215 headers), cuts {4,12,33,all}, last byte symbolic or not, one symbolic byte appended or not, limits {0,len,3072}"},
+               "thorough": {"non_looping_detectors": "every header length 0..4300", "looping_detectors": "every header length 0..8", "charset": "length <= 4", "data": "as quick plus a symbolic byte at position 0 or 5"}},
     "outside": ["32-bit int", "lengths above the stated bounds", "panics inside time.Parse when called on symbolic strings (contract stub)"],
     "assumptions": ["64-bit int", "intrinsics are faithful models (engine/symgo/intrinsics.go)"],
 }
 
 SPECS["C07"] = {
     "explanation": "magic.Text(raw, limit) is compared on every path with an independent oracle (BOM table, WHATWG binary-data byte table) "
-                   "written in the harness; the tree-level half (text is the last root child, text sub-formats are only consulted after "
+                   "written in the harness; end to end, the whole of Detect (real walk, real detectors) on the repository's own test headers with symbolic "
+                   "perturbations reports text/plain in the chain only for a BOM or a header free of binary-data bytes, and never the bare root for such headers; the tree-level half (text is the last root child, text sub-formats are only consulted after "
                    "text matched, the walk reports text iff its detector accepted) is decided on the real tree with symbolic detector verdicts.",
     "units": [
         {"name": "text", "pkg": "magic", "harnesses": ["HC07Text"], "quick_args": fix(maxlen=100), "thorough_args": fix(maxlen=160),
          "quick_shards": 16, "thorough_shards": 32},
         {"name": "sequence", "pkg": "mimetype", "harnesses": ["HC05Seq"], "quick_args": fix(maxlen=2), "thorough_args": fix(maxlen=3), "quick_shards": 32, "thorough_shards": 64},
         {"name": "entry", "pkg": "mimetype", "harnesses": ["HC05Reader"], "quick_args": fix(maxlen=3), "thorough_args": fix(maxlen=4), "quick_shards": 16, "thorough_shards": 32},
+        {"name": "data", "pkg": "mimetype", "harnesses": ["HC01Data"], "args": ["-max-instr", "30000000"], "quick_args": fix(dataTier=0), "thorough_args": fix(dataTier=1), "quick_shards": 48, "thorough_shards": 64},
     ],
-    "must_reach": ["assert:detect-slices-to-limit", "assert:second-detection-header-within-limit", "end", "assert:text-iff-bom-or-no-binary-byte"],
+    "must_reach": ["assert:e2e-text-implies-bom-or-no-binary-byte", "assert:e2e-no-binary-byte-implies-classified", "assert:detect-slices-to-limit", "assert:second-detection-header-within-limit", "end", "assert:text-iff-bom-or-no-binary-byte"],
     "bounds": {"quick": {"header_length": "0..100, all byte values, all uint32 limits"}, "thorough": {"header_length": "0..160"}},
     "outside": ["headers longer than the bound (Text is a single loop over the header; no length-dependent state)"],
     "assumptions": ["only the first `limit` bytes reach the tree walk (checked by C04/C05 harnesses)"],
@@ -172,7 +176,7 @@ SPECS["C05"] = {
         {"name": "sequence", "pkg": "mimetype", "harnesses": ["HC05Seq"], "quick_args": fix(maxlen=2), "thorough_args": fix(maxlen=3), "quick_shards": 32, "thorough_shards": 64},
         {"name": "big", "pkg": "mimetype", "harnesses": ["HC05Big"], "args": ["-max-instr", "20000000"], "quick_shards": 32, "thorough_shards": 64},
     ],
-    "must_reach": ["assert:big-same-header-bytes", "assert:big-reader-consumes-at-most-limit", "assert:second-detection-consumes-at-most-limit", "end", "assert:same-header-bytes", "assert:error-is-surfaced", "assert:reader-consumes-at-most-limit", "assert:open-error-yields-errMIME", "assert:file-closed"],
+    "must_reach": ["assert:file-read-error-is-surfaced", "assert:big-same-header-bytes", "assert:big-reader-consumes-at-most-limit", "assert:second-detection-consumes-at-most-limit", "end", "assert:same-header-bytes", "assert:error-is-surfaced", "assert:reader-consumes-at-most-limit", "assert:open-error-yields-errMIME", "assert:file-closed"],
     "bounds": {"quick": {"data": "<= 4 bytes (symbolic), all chunk compositions, EOF with/without data, error at every offset with/without data, limits {0,1..6,3072}"},
                "thorough": {"data": "<= 6 bytes, limits {0,1..8,3072}"}},
     "outside": ["readers that violate the io.Reader contract", "real file-system behaviour (os.Open/Read/Close are contract stubs)", "limits outside the enumerated set"],
